@@ -513,3 +513,79 @@ def raw_slot_flag(facts):
         else:
             out.append(ob("lifecycle.raw-slot-flag", k, (last[1] if last else fn["pat"]), "violated", "data_ receives freshly allocated raw memory in this function (gap slot never constructed) but filled_data_ is `%s` on return: the destructor / reset / next update treat the raw gap slot as a live object (destroying or assigning to an unconstructed item)" % (txt(val) if val is not None else "unset"), fn["qname"]))
     return out
+
+
+def _handled_fields(node):
+    h = set()
+
+    def visit(n):
+        if n.get("k") == "Call" and n.get("cname") == "swap" and len(n.get("args", [])) == 2:
+            for x in n["args"]:
+                if is_this_member(x):
+                    h.add(strip(x)["f"])
+        if n.get("k") == "Assign" and n.get("op") == "=" and is_this_member(n["l"]):
+            h.add(strip(n["l"])["f"])
+        if n.get("k") == "OpCall" and n.get("op") == "=" and len(n.get("args", [])) == 2 and is_this_member(n["args"][0]):
+            h.add(strip(n["args"][0])["f"])
+    walk(node, visit)
+    return h
+
+
+def assign_fast_paths(facts):
+    """user-written assignment operators: every early-returning branch other than the self-assignment test must itself bring every
+    field over (fields the branch condition proves equal to the source's are exempt) - a 'fast path' that copies only the data
+    leaves flags / cached state of the target stale."""
+    from astu import stmts_of, always_exits, txt
+    recs = {}
+    for r in facts.records():
+        recs.setdefault(r["tmpl"], r)
+    out = []
+    seen = set()
+    for fn in facts.functions():
+        if fn.get("special") not in ("copy-assign", "move-assign") or fn["pat"] in seen or fn.get("body") is None or fn.get("defaulted") or fn.get("implicit") or not fn["params"]:
+            continue
+        seen.add(fn["pat"])
+        r = recs.get(fn["rect"])
+        if not r:
+            continue
+        other = fn["params"][0]["d"]
+        fields = [f["n"] for f in r["fields"] if f["n"] and not f.get("mutable")]
+        acc = set()
+        base = "%s::%s" % (short(fn["rect"]), fn["special"])
+        nfast = 0
+        for s in stmts_of(fn["body"]):
+            if s.get("k") == "If" and always_exits(s.get("t")):
+                c = txt(s["c"]).replace(" ", "")
+                selftest = c in ("(this==&%s)" % fn["params"][0]["n"], "(&%s==this)" % fn["params"][0]["n"])
+                if selftest:
+                    out.append(ob("special.fast-path", base + ":self-test", s["loc"], "discharged", "early return on self-assignment", fn["qname"]))
+                    continue
+                nfast += 1
+                # fields proved equal by the condition: `f == other.f` conjuncts and `f && other.f`
+                eq = set()
+
+                def conj(e):
+                    e = strip_all(e)
+                    if e.get("k") == "Bin" and e.get("op") == "&&":
+                        return conj(e["l"]) + conj(e["r"])
+                    return [e]
+                cs = conj(s["c"])
+                plain_this = {strip(x)["f"] for x in cs if is_this_member(x)}
+                plain_other = {member_of(x, other) for x in cs if member_of(x, other)}
+                eq |= plain_this & plain_other
+                for x in cs:
+                    if x.get("k") == "Bin" and x.get("op") == "==":
+                        for a, b in ((x["l"], x["r"]), (x["r"], x["l"])):
+                            if is_this_member(a) and member_of(b, other) == strip(a)["f"]:
+                                eq.add(strip(a)["f"])
+                h = acc | _handled_fields(s["t"]) | eq
+                missing = [f for f in fields if f not in h]
+                key = "%s:fast-path#%d" % (base, nfast - 1)
+                if missing:
+                    out.append(ob("special.fast-path", key, s["loc"], "violated", "the early-returning branch `if %s` of %s brings over only part of the object; field(s) %s keep the target's old value on that path" % (txt(s["c"])[:80], fn["special"], ", ".join("`%s`" % m for m in missing), ), fn["qname"]))
+                else:
+                    out.append(ob("special.fast-path", key, s["loc"], "discharged", "early-returning branch handles every field", fn["qname"]))
+            else:
+                acc |= _handled_fields(s)
+        out.append(ob("special.fast-path", base + ":paths", fn["pat"], "discharged", "%d early-returning branch(es) besides the self test, each complete" % nfast if nfast else "single path (no early return besides an optional self-assignment test)", fn["qname"]))
+    return out
